@@ -277,7 +277,7 @@ def rule_nsec(ctx, F):
 
 
 UPSTREAM_ERR = re.compile(r"(base::wire::ParseError|octseq::(parse::)?ShortInput|utils::base\d+::DecodeError|base64::DecodeError|"
-                          r"dnssec::common::Nsec3HashError|core::str::Utf8Error|base::name::.*Error|ShortMessage|LongRecordData)")
+                          r"dnssec::common::Nsec3HashError|core::str::Utf8Error|base::name::.*Error|ShortMessage|LongRecordData|base::message_builder::PushError)")
 PANIC_AUDIT = {
     # (fn regex, callee last segment): reason
     (r"cached_nsec3_hash", "nsec3_hash"): "every caller checks supported_nsec3_hash(algorithm) first; the only other error is an "
@@ -286,6 +286,8 @@ PANIC_AUDIT = {
         "re-parses the octets a MessageBuilder just produced",
     (r"validate_msg|request_dnskey|request_ds|request_as_groups|context::ValidationContext", "from_octets"): "re-parses the octets a MessageBuilder just produced",
     (r"cached_nsec3_hash|context::", "from_slice"): "label built from a fixed-length Base32hex rendering of a hash (<= 63 octets)",
+    (r"net::client::validator::remove_dnssec$", "opt"): "copies (a subset of) the options of the OPT record the response was parsed with and "
+                                                        "adds none: the new OPT record data is not longer than the old",
 }
 
 
@@ -313,6 +315,11 @@ def rule_panic(ctx, F):
             if src and src[1]:
                 segs = [x for x in re.sub(r"<[^<>]*>", "", src[1]).split("::") if x]
                 sname = segs[-1] if segs else sname
+            if "PushError" in targs[1] and sname != "opt":
+                # pushing records into an unlimited Vec target: not decided here (a record whose names grow past 65535 octets
+                # of record data when uncompressed is turned away when the groups are built, C14.panic LongRecordData)
+                n -= 1
+                continue
             k = (p, sname)
             seen[k] = seen.get(k, 0) + 1
             reason = None
@@ -351,15 +358,16 @@ def rule_panic(ctx, F):
         ex = [t for _, t in b.calls() if re.search(r"::(unwrap|expect)$", t["fn"] or "")]
         ctx.ob(R, b, "decode failure of an NSEC3 owner label is returned", not ex,
                "nsec3_label_to_hash unwraps the Base32hex decoding of an upstream-supplied label")
-    for fn in ("remove_dnssec", "add_opt", "serve_fail"):
-        cl = [cb for p, cb in F.bodies.items() if p.startswith("net::client::validator::%s::{closure" % fn)]
-        if not ctx.anchor(R, "net::client::validator::%s option loop" % fn, cl):
-            continue
+    # the loops that copy the upstream's EDNS options (closures handed to AdditionalBuilder::opt in the rebuilding functions)
+    loops = [cb for p, cb in sorted(F.bodies.items()) if re.match(r"^net::client::validator::\w+::\{closure", p)
+             and cb.calls_matching(r"OptBuilder::<.*>::push$")]
+    ctx.anchor(R, "option-copying closures of net::client::validator (remove_dnssec and the OPT + EDE builder)", len(loops) >= 2)
+    for cb in loops:
         bad = []
-        for cb in cl:
-            for _, t in cb.calls():
-                if re.search(r"Result::<.*>::(unwrap|expect)$", t["fn"] or "") and len(t["targs"]) > 1 and "ParseError" in t["targs"][1]:
-                    bad.append(cb.path)
+        for _, t in cb.calls():
+            if re.search(r"Result::<.*>::(unwrap|expect)$", t["fn"] or "") and len(t["targs"]) > 1 and "ParseError" in t["targs"][1]:
+                bad.append(cb.path)
+        fn = cb.path.split("::")[3] if len(cb.path.split("::")) > 3 else cb.path
         ctx.ob(R, "net::client::validator::%s" % fn, "unparseable upstream EDNS options do not panic", not bad,
                "%s expects every EDNS option of the upstream response to parse" % fn)
 
